@@ -26,7 +26,7 @@ func verifHarness_C12_soup(m int) {
 
 // literal templates: a (raw / bytes) literal with k arbitrary body bytes, followed by ";a"
 func verifHarness_C12_lit(k, prefix, quote int) {
-	pre := []string{"", "r", "b", "rb"}[prefix]
+	pre := []string{"", "r", "b", "rb", "rr", "bb", "rbr"}[prefix]
 	q := []string{"'", "\"", "'''", "`"}[quote]
 	if quote == 3 && prefix != 0 {
 		return
